@@ -13,6 +13,7 @@ fn render(sym: &[String]) -> String {
             "E" => out.push('é'),
             "B" => out.push_str("99999999999999999999"),
             "M" => out.push_str("9223372036854775807"),
+            "T" => out.push_str("1500"),
             x => out.push_str(x),
         }
     }
